@@ -962,6 +962,16 @@ func (obj *Package) DefLambda(name string, lam *Lambda, fc func(args List) Objec
 	return
 }
 
+// Lambda returns the lambda registered for a function defined with defun or
+// defmacro in the package. It is the one lambda all compiled callers of the
+// function share, a redefinition updates it in place.
+func (obj *Package) Lambda(name string) (lam *Lambda) {
+	obj.mu.Lock()
+	lam = obj.lambdas[name]
+	obj.mu.Unlock()
+	return
+}
+
 // shareFunc makes an exported function visible in the packages that use this
 // one unless they have a function of that name already.
 func (obj *Package) shareFunc(name string, fi *FuncInfo) {
